@@ -4,7 +4,7 @@ CONSTANT Pats = {"a", "b"}
 CONSTANT MaxDepth = 30
 CONSTANT EMITMOD = 199
 CONSTANT EMITKF = 47
-INVARIANT Conform
+INVARIANT ConformRaw
 INVARIANT QueriesPure
 INVARIANT GTMean
 INVARIANT SolveTable
@@ -13,7 +13,6 @@ INVARIANT PressureTable
 INVARIANT RoundTrip
 INVARIANT TablesAgree
 INVARIANT Symmetric
-INVARIANT Emit
 PROPERTY PureQueries
 CONSTRAINT DepthOK
 VIEW View
